@@ -414,6 +414,7 @@ func oneSchedule(c *kit.Ctx, g *gen, w *world, cs []call, r *rand.Rand, crashBud
 	var descs []string
 	bounds := make([]int, 0, len(cs)+1) // op index at the start of each call
 	heads := make([]common.Hash, 0, len(cs))
+	extras := make([]*types.Block, 0, len(cs))
 	ok := true
 	for _, k := range cs {
 		bounds = append(bounds, cdb.Len())
@@ -437,6 +438,12 @@ func oneSchedule(c *kit.Ctx, g *gen, w *world, cs []call, r *rand.Rand, crashBud
 			break
 		}
 		heads = append(heads, t.Chain.CurrentBlock().Hash())
+		// one further valid block on the head the never-crashed node has after THIS call
+		x, xerr := g.extend(t, 1, nil, "", false)
+		if xerr != nil {
+			x = nil
+		}
+		extras = append(extras, x)
 	}
 	bounds = append(bounds, cdb.Len())
 	finalHead := t.Chain.CurrentBlock()
@@ -456,16 +463,6 @@ func oneSchedule(c *kit.Ctx, g *gen, w *world, cs []call, r *rand.Rand, crashBud
 	if finalHead.NumberU64() > 0 && len(w.forks) > 0 {
 		c.Count("schedules_with_forks", 1)
 	}
-	// one further valid block on the never-crashed head
-	var extra *types.Block
-	if ok {
-		x, err := g.extend(t, 1, nil, "", false)
-		if err != nil {
-			c.Note("cannot build the extra block on the reference head: " + err.Error())
-			ok = false
-		}
-		extra = x
-	}
 	t.Stop()
 	if !ok {
 		return false
@@ -484,7 +481,10 @@ func oneSchedule(c *kit.Ctx, g *gen, w *world, cs []call, r *rand.Rand, crashBud
 		for j+1 < len(cs) && bounds[j+1] <= p {
 			j++
 		}
-		if !crashPoint(c, g, cdb, cs, descs, p, j, bounds[j], extra) {
+		if j >= len(extras) || extras[j] == nil {
+			continue
+		}
+		if !crashPoint(c, g, cdb, cs, descs, p, j, bounds[j], extras[j]) {
 			return false
 		}
 	}
@@ -558,9 +558,9 @@ func crashPoint(c *kit.Ctx, g *gen, cdb *faults.CrashDB, cs []call, descs []stri
 		c.Violation("after-restart:"+class(v), fmt.Sprintf("after a crash at DB op %d (during %s) and restart: %s", p, cs[j].desc, v), wit)
 		return false
 	}
-	// not wedged: re-offer the interrupted blocks (and, to reach the reference head, the rest of the
-	// schedule), then one further valid block
-	for k := j; k < len(cs); k++ {
+	// not wedged: re-offer the interrupted blocks, then one further valid block (a child of the head
+	// the never-crashed node has after the interrupted call)
+	for k := j; k <= j; k++ {
 		if pv, stack := kit.GuardStack(func() { n.Chain.InsertChain(cs[k].blocks) }); pv != nil {
 			stop = false
 			wit["stack"] = stack
@@ -583,7 +583,7 @@ func crashPoint(c *kit.Ctx, g *gen, cdb *faults.CrashDB, cs []call, descs []stri
 		if reorgStarted(cdb, from, p) {
 			cl = "crash-inside-reorg:different-head-after-recovery"
 		}
-		c.Violation(cl, fmt.Sprintf("crash at DB op %d (during %s): after re-offering the interrupted (and remaining) blocks and one further valid block (#%d, InsertChain -> %v) the head is #%d %x; the never-crashed node's head is that further block", p, cs[j].desc, extra.NumberU64(), ierr, n.Chain.CurrentBlock().NumberU64(), got.Bytes()[:4]), wit)
+		c.Violation(cl, fmt.Sprintf("crash at DB op %d (during %s): after re-offering the interrupted blocks and one further valid block (#%d, InsertChain -> %v) the head is #%d %x; the never-crashed node's head is that further block", p, cs[j].desc, extra.NumberU64(), ierr, n.Chain.CurrentBlock().NumberU64(), got.Bytes()[:4]), wit)
 		return false
 	}
 	for _, v := range checkChain(n.Chain, db, db, g) {
